@@ -111,9 +111,22 @@ def static_fresh_workspaces():
                   'g, h, bh are fresh arrays of this call' if ok else '; '.join(problems), None if ok else {'problems': problems})]
 
 
+# round 3 (m1): replay of the static obligation `locals-assigned-before-use` of the two entry points = the flag-combination harness
+for _f in ('calculate_likelihood', 'calculate_likelihood_and_derivatives'):
+    REPLAYS[f'C02:static:biogeme.BIOGEME.{_f}:locals-assigned-before-use'] = """
+import subprocess, sys, json
+r = subprocess.run([sys.executable, '/verif/bounded/m1_entrypoints.py'], capture_output=True, text=True, cwd='/tmp')
+d = json.loads(r.stdout.strip().splitlines()[-1])
+violated = bool(d['failures'])
+detail = str([(f.get('check'), f.get('case'), f.get('got')) for f in d['failures'][:3]])
+"""
+
+
 def extra(tier, seed):
     from pyvc.bounded import run_native
-    out = static_named_outputs() + static_fresh_workspaces()
+    from contracts import m1_static
+    out = static_named_outputs() + static_fresh_workspaces() + m1_static.extras('C02')
+    out.append(run_native('C02:bounded:entry-points', 'm1_entrypoints.py', [], bound='1 cross-sectional model (2 free parameters, 4 rows) x scaled x hessian x bhhh x save_iterations; wrong lengths 0/1/3 -> ValueError; batch -> BiogemeError; 1 panel model (2 individuals) whose individual map is made stale after construction; debug logging on'))
     out.append(run_native('C02:bounded:outputs-native', 'c02_outputs_native.py', [],
                           bound='unique_entry for K in 1..3 incl. zero gradients; named outputs under 3 name->index maps'))
     out.append(run_native('C02:bounded:output-histories', 'c02_sequences.py', [],
